@@ -161,6 +161,73 @@ def verify_generated(
     return problems
 
 
+def verify_discovery_binds(
+    config: Dict[str, Any],
+    code: str,
+    *,
+    template: str,
+) -> List[str]:
+    """Check that auto-discovery over the generated logic binds every name.
+
+    The ``*-json`` templates do not build the machine in Python; their runner
+    calls ``create_machine(json, logic_modules=[...])`` or
+    ``logic_providers=[...]``. This performs exactly that call against the
+    generated module, so a name discovery cannot bind is reported before
+    anything is written rather than by the user's first run.
+
+    Args:
+        config: The source machine config.
+        code: Generated logic module source.
+        template: Template identifier (``class-json`` or ``function-json``).
+
+    Returns:
+        A list of problems. Empty means every referenced name is bound.
+    """
+    import copy
+    import types
+
+    from ..exceptions import ImplementationMissingError
+    from ..factory import create_machine
+
+    module = types.ModuleType(f"_xsm_verify_{template.replace('-', '_')}")
+    saved_modules = dict(sys.modules)
+    try:
+        try:
+            exec(compile(code, f"<{template}>", "exec"), module.__dict__)
+        except Exception as exc:  # noqa: BLE001 — reported, not swallowed
+            return [
+                f"generated code raised {type(exc).__name__} on import: {exc}"
+            ]
+        try:
+            if template == "class-json":
+                providers = [
+                    value()
+                    for value in vars(module).values()
+                    if isinstance(value, type)
+                    and getattr(value, "__module__", None) == module.__name__
+                ]
+                create_machine(
+                    copy.deepcopy(config), logic_providers=providers
+                )
+            else:
+                create_machine(copy.deepcopy(config), logic_modules=[module])
+        except ImplementationMissingError as exc:
+            return [
+                f"auto-discovery cannot bind the generated logic to the "
+                f"machine: {exc} Names that are not Python identifiers "
+                f"cannot be discovered; rename them, or use a pythonic "
+                f"template."
+            ]
+        except Exception:  # noqa: BLE001 — an invalid source is not ours
+            return []
+    finally:
+        # 🧹 Drop anything the executed code added or replaced.
+        for name in set(sys.modules) - set(saved_modules):
+            sys.modules.pop(name, None)
+        sys.modules.update(saved_modules)
+    return []
+
+
 def _machine_types() -> Tuple[type, ...]:
     """Every type that counts as a built machine.
 
